@@ -96,10 +96,13 @@ Definition obj_type (mode : N) : N :=
    umask forbids and no special bit is set -- on the bits a symbolic mod= did not touch *)
 Definition required_bits (ty : N) : N :=
   if ty =? TypeDir then 448 (* 0700 *) else if ty =? TypeSymlink then 0 else 384 (* 0600 *).
-Definition forbidden_bits : N := N.lor 3584 D_Umask.       (* 07000 | umask *)
+(* a symbolic link's permission bits mean nothing on Linux (lrwxrwxrwx is what lstat shows and
+   what tar records for every link), so the umask is not held against them *)
+Definition forbidden_bits (ty : N) : N :=
+  if ty =? TypeSymlink then 3584 else N.lor 3584 D_Umask.       (* 07000 | umask *)
 Definition usable_outside (tch ty perms : N) : bool :=
   (N.land (N.ldiff (required_bits ty) tch) perms =? N.ldiff (required_bits ty) tch)
-  && (N.land (N.ldiff forbidden_bits tch) perms =? 0).
+  && (N.land (N.ldiff (forbidden_bits ty) tch) perms =? 0).
 
 Definition optN (o : option N) (d : N) : N := match o with Some x => x | None => d end.
 
